@@ -1088,6 +1088,49 @@ func runC15(c *core.Ctx) {
 		}
 	}
 	c.Extra("printers_checked_for_config_dependence", nCfg)
+	// ---- cmt.macro: #FASTLY macro comments are exempt from the comment-style rewrite
+	if fc := prog.SSAFunc("formatter", "Formatter.formatComment"); fc != nil {
+		nConv := 0
+		for _, b := range fc.Blocks {
+			for _, in := range b.Instrs {
+				call, ok := in.(*ssa.Call)
+				if !ok {
+					continue
+				}
+				cal := call.Common().StaticCallee()
+				if cal == nil || cal.Name() != "formatCommentCharacter" {
+					continue
+				}
+				nConv++
+				guarded := false
+				for _, blk := range fc.Blocks {
+					iff, ok := blk.Instrs[len(blk.Instrs)-1].(*ssa.If)
+					if !ok {
+						continue
+					}
+					hp, ok := iff.Cond.(*ssa.Call)
+					if !ok {
+						continue
+					}
+					if hc := hp.Common().StaticCallee(); hc == nil || hc.Name() != "HasPrefix" {
+						continue
+					}
+					if k, ok := hp.Common().Args[1].(*ssa.Const); !ok || k.Value == nil || !strings.Contains(k.Value.ExactString(), "#FASTLY") {
+						continue
+					}
+					if core.EdgeDominates(blk, 1, b) {
+						guarded = true
+					}
+				}
+				key := fmt.Sprintf("formatComment|style-rewrite#%d", nConv)
+				if guarded {
+					c.Discharge("cmt.macro", key, in.Pos(), "only comments that are not #FASTLY macros are rewritten")
+				} else {
+					c.Report("cmt.macro", key, in.Pos(), "the comment-style rewrite is also applied to #FASTLY macro comments: with comment_style: slash the macro becomes `/FASTLY …`, which is neither a macro nor a comment")
+				}
+			}
+		}
+	}
 	// helpers that receive the comments themselves (ast.Comments parameter)
 	fcFn := prog.SSAFunc("formatter", "Formatter.formatComment")
 	for _, fn := range a.funcs {
